@@ -5,7 +5,7 @@
 (* Event fields: op, w (window: abs, H0, V0), a (arguments), o (outcome:   *)
 (* "ok" / "err" / "panic"), r (result, projected).                         *)
 (***************************************************************************)
-EXTENDS Neighbour, Keys
+EXTENDS Neighbour, Keys, Line, Deviations
 
 \* ---- generic helpers ------------------------------------------------------
 IsSeq(x) == x = <<>> \/ DOMAIN x = 1..Len(x)     \* used only on values known to be lists
@@ -253,6 +253,9 @@ X_BitBack(e) ==
   IF e.a.mx < e.a.mn THEN Err(e) /\ e.r = <<>>
   ELSE Ok(e) /\ ListIsSet(e.r, Exp_BitBack(e))
 
+\* ---- C06 ------------------------------------------------------------------
+X_Line(e) == Ok(e) /\ LineAccept(e.r, e.a.moves, e.a.end)
+
 \* ---- dispatch -------------------------------------------------------------
 Explains(e) ==
   /\ e.bad = ""
@@ -292,6 +295,7 @@ Explains(e) ==
       [] e.op = "TilesToSp"            -> X_TilesToSp(e)
       [] e.op = "BitFwd"               -> X_BitFwd(e)
       [] e.op = "BitBack"              -> X_BitBack(e)
+      [] e.op \in {"Line", "LineSp"}   -> X_Line(e)
       [] OTHER -> FALSE
 
 \* what the specification expected (diagnostics for a rejected line)
@@ -332,7 +336,16 @@ Expected(e) ==
     [] e.op = "TilesToSp"            -> IF TilesValid(e) THEN Exp_TilesToSp(e) ELSE "error, no partial result"
     [] e.op = "BitFwd"               -> Exp_BitFwd(e)
     [] e.op = "BitBack"              -> Exp_BitBack(e)
+    [] e.op \in {"Line", "LineSp"}   -> [walkEnd |-> WalkEnd(e.a.moves),
+                                         notTouched |-> Range(e.r) \ Touched(e.a.moves),
+                                         reachable |-> Cardinality(Reachable(Range(e.r), <<0, 0, 0>>))]
     [] OTHER -> "no-spec-operator"
+
+\* ---- recorded deviations (known findings) -----------------------------------
+KnownDeviation(e) ==
+  IF e.op \in {"Line", "LineSp"} /\ e.bad = "" /\ Ok(e)
+     /\ LineAcceptRetruncated(e.r, e.a.moves, e.a.end, e.a.retr) THEN "D11"
+  ELSE ""
 
 \* ---- machine events (histories) -------------------------------------------
 IsMachineOp(e) == FALSE
